@@ -50,15 +50,18 @@ InitState(t, n, b, q) ==
    mpc       |-> IF n = 0 THEN "m.close" ELSE "m.submit",   \* main: next is to submit operation sent+1, or close
    sent      |-> 0,
    rpc       |-> "r.read",
+   xpc       |-> "x.wait",     \* a goroutine that calls p.Wait()
    got       |-> <<>>]         \* results received by the reader, in order
 
 Main == <<"m", 0>>
 Reader == <<"r", 0>>
-Procs == {Main, Reader} \cup {<<"w", w>> : w \in Workers}
+Waiter == <<"x", 0>>
+Procs == {Main, Reader, Waiter} \cup {<<"w", w>> : w \in Workers}
 
 GateOf(st, p) ==
   IF p = Main THEN (IF st.mpc \in {"m.submit", "m.close"} THEN st.mpc ELSE "")
   ELSE IF p = Reader THEN (IF st.rpc = "r.read" THEN "r.read" ELSE "")
+  ELSE IF p = Waiter THEN (IF st.xpc \in {"x.wait", "x.returned"} THEN st.xpc ELSE "")
   ELSE IF st.wpc[p[2]] \in WorkerGates THEN st.wpc[p[2]] ELSE ""
 
 CanRelease(st, p) == ~st.panicked /\ GateOf(st, p) # ""
@@ -87,6 +90,7 @@ Released(st, p) ==
     (IF st.mpc = "m.submit" THEN [st EXCEPT !.mpc = "m.sending"]
      ELSE [st EXCEPT !.mpc = "m.done", !.inClosed = TRUE])                \* Close()
   ELSE IF p = Reader THEN [st EXCEPT !.rpc = "r.recvwait"]
+  ELSE IF p = Waiter THEN [st EXCEPT !.xpc = IF st.xpc = "x.wait" THEN "x.waiting" ELSE "x.done"]
   ELSE ReleaseWorker(st, p[2])
 
 (***************************************************************************)
@@ -130,6 +134,12 @@ InternalSteps(st) ==
   (IF st.rpc = "r.recvwait" /\ st.out = <<>> /\ st.closes > 0
      THEN {[st EXCEPT !.rpc = "r.done"]}
      ELSE {})
+  \cup
+  \* p.Wait(): the WaitGroup was incremented once per worker before the workers were started
+  \* and each worker calls Done as its last step
+  (IF st.xpc = "x.waiting" /\ \A w \in Workers : st.wpc[w] \in {"done", "absent"}
+     THEN {[st EXCEPT !.xpc = "x.returned"]}
+     ELSE {})
 
 RECURSIVE Settle(_)
 Settle(st) == IF InternalSteps(st) = {} THEN st ELSE Settle(CHOOSE u \in InternalSteps(st) : TRUE)
@@ -149,7 +159,7 @@ IntStep == \E u \in InternalSteps(st) : st' = u /\ last' = <<"internal">>
 
 AllDone(s) ==
   /\ \A w \in Workers : s.wpc[w] \in {"done", "absent"}
-  /\ s.mpc = "m.done" /\ s.rpc = "r.done"
+  /\ s.mpc = "m.done" /\ s.rpc = "r.done" /\ s.xpc = "x.done"
 
 Terminated(s) == AllDone(s) \/ s.panicked
 
@@ -170,6 +180,8 @@ NoDuplicates == Cardinality(Range(st.got)) = Len(st.got) /\ Range(st.got) \subse
 CloseIsLast == st.closes > 0 => \A w \in Workers : st.wpc[w] \in {"done", "absent"}
 \* at the end every submitted operation has produced exactly one result, the channel is closed once
 Complete == AllDone(st) => (Range(st.got) = 1..st.n /\ Len(st.got) = st.n /\ st.closes = 1)
+\* Wait returns only when every worker has left (and every submitted operation has been run)
+WaitMeansDone == st.xpc \in {"x.returned", "x.done"} => \A w \in Workers : st.wpc[w] \in {"done", "absent"}
 \* after the queue is closed all workers exit, the reader sees the close (so Wait returns)
 Termination == <>[](AllDone(st))
 =============================================================================
